@@ -41,6 +41,12 @@ def kernelCfg : Cfg :=
     sysTotalTimesUnit := true, sysFreeTimesUnit := true
     primesTotalPhymem := true, phymemField := "total", memPercentUsesCache := true }
 
+/-- the same configuration with the two /proc/vmstat page counters multiplied by `f` bytes per
+    page: `f = 4096` is the code as found (`* 4 * 1024`), `f = PAGESIZE` the repaired one -/
+def cfgF (f : Nat) : Cfg := { kernelCfg with sinFactor := f, soutFactor := f }
+
+theorem kernelCfg_eq_cfgF : kernelCfg = cfgF 4096 := rfl
+
 
 /-! ## Text lemmas: the three renderers against the parsers -/
 
@@ -397,13 +403,13 @@ def pairUp : Option Nat → Option Nat → Option (Nat × Nat)
   | some a, some b => some (a, b)
   | _, _ => none
 
-theorem vmstatLoop_render (vs : List VLine) (hw : VWF vs) (sin sout : Option Nat)
+theorem vmstatLoop_render (f : Nat) (vs : List VLine) (hw : VWF vs) (sin sout : Option Nat)
     (h0 : ¬ (sin.isSome = true ∧ sout.isSome = true))
     (h1 : sin.isSome = true → K "pswpin" ∉ vs.map (·.name))
     (h2 : sout.isSome = true → K "pswpout" ∉ vs.map (·.name)) :
-    vmstatLoop kernelCfg (vs.map renderVLine) sin sout =
-      .ok (pairUp (sin <|> (vmstatGet vs (K "pswpin")).map (· * 4096))
-                  (sout <|> (vmstatGet vs (K "pswpout")).map (· * 4096))) := by
+    vmstatLoop (cfgF f) (vs.map renderVLine) sin sout =
+      .ok (pairUp (sin <|> (vmstatGet vs (K "pswpin")).map (· * f))
+                  (sout <|> (vmstatGet vs (K "pswpout")).map (· * f))) := by
   induction vs generalizing sin sout with
   | nil =>
     cases sin <;> cases sout <;> simp_all [vmstatLoop, vmstatGet, pairUp]
@@ -411,14 +417,14 @@ theorem vmstatLoop_render (vs : List VLine) (hw : VWF vs) (sin sout : Option Nat
     have hn := (hw.names l (by simp)).2
     have hcl := hw.noClash l (by simp)
     have hnd := List.nodup_cons.mp hw.nodup
-    have hsin : startsWith kernelCfg.sinPrefix (renderVLine l) = startsWith (K "pswpin") l.name :=
-      startsWith_line _ l (by decide)
-    have hsout : startsWith kernelCfg.soutPrefix (renderVLine l) = startsWith (K "pswpout") l.name :=
-      startsWith_line _ l (by decide)
-    have hfi : vmstatField kernelCfg.sinIdx kernelCfg.sinFactor (renderVLine l) = .ok (l.val * 4096) :=
-      vmstatField_render l hn 4096
-    have hfo : vmstatField kernelCfg.soutIdx kernelCfg.soutFactor (renderVLine l) = .ok (l.val * 4096) :=
-      vmstatField_render l hn 4096
+    have hsin : startsWith (cfgF f).sinPrefix (renderVLine l) = startsWith (K "pswpin") l.name :=
+      startsWith_line (K "pswpin") l (by decide)
+    have hsout : startsWith (cfgF f).soutPrefix (renderVLine l) = startsWith (K "pswpout") l.name :=
+      startsWith_line (K "pswpout") l (by decide)
+    have hfi : vmstatField (cfgF f).sinIdx (cfgF f).sinFactor (renderVLine l) = .ok (l.val * f) :=
+      vmstatField_render l hn f
+    have hfo : vmstatField (cfgF f).soutIdx (cfgF f).soutFactor (renderVLine l) = .ok (l.val * f) :=
+      vmstatField_render l hn f
     simp only [List.map_cons, vmstatLoop, hsin, hsout, hfi, hfo]
     by_cases hin : l.name = K "pswpin"
     · -- the pswpin line
@@ -437,7 +443,7 @@ theorem vmstatLoop_render (vs : List VLine) (hw : VWF vs) (sin sout : Option Nat
       | some b => simp [pairUp]
       | none =>
         have hnot : K "pswpin" ∉ vs.map (·.name) := by rw [← hin]; exact hnd.1
-        have := ih hw.tail (some (l.val * 4096)) none (by simp) (fun _ => hnot) (by simp)
+        have := ih hw.tail (some (l.val * f)) none (by simp) (fun _ => hnot) (by simp)
         simp only [this]
         have hg : vmstatGet vs (K "pswpin") = none := by
           simp only [vmstatGet, Option.map_eq_none_iff, List.find?_eq_none]
@@ -464,7 +470,7 @@ theorem vmstatLoop_render (vs : List VLine) (hw : VWF vs) (sin sout : Option Nat
         | some a => simp [pairUp]
         | none =>
           have hnot : K "pswpout" ∉ vs.map (·.name) := by rw [← hout]; exact hnd.1
-          have := ih hw.tail none (some (l.val * 4096)) (by simp) (by simp) (fun _ => hnot)
+          have := ih hw.tail none (some (l.val * f)) (by simp) (by simp) (fun _ => hnot)
           simp only [this]
           simp
       · have hso : startsWith (K "pswpout") l.name = false := by
@@ -483,10 +489,10 @@ theorem nl_not_mem_vline (l : VLine) (h : NoWs l.name) : 10 ∉ renderVLine l :=
   simp only [renderVLine, List.mem_append, not_or]
   exact ⟨⟨noWs_not_mem h 10 (by decide), by decide⟩, renderDec_not_mem l.val 10 (by decide)⟩
 
-theorem vmstatLoop_vmstat (vs : List VLine) (hw : VWF vs) :
-    vmstatLoop kernelCfg (linesOf (renderVmstat vs)) none none =
-      .ok (pairUp ((vmstatGet vs (K "pswpin")).map (· * 4096))
-                  ((vmstatGet vs (K "pswpout")).map (· * 4096))) := by
+theorem vmstatLoop_vmstatF (f : Nat) (vs : List VLine) (hw : VWF vs) :
+    vmstatLoop (cfgF f) (linesOf (renderVmstat vs)) none none =
+      .ok (pairUp ((vmstatGet vs (K "pswpin")).map (· * f))
+                  ((vmstatGet vs (K "pswpout")).map (· * f))) := by
   unfold renderVmstat
   have : (vs.map fun l => renderVLine l ++ [10]) = (vs.map renderVLine).map fun l => l ++ [10] := by
     simp
@@ -494,8 +500,14 @@ theorem vmstatLoop_vmstat (vs : List VLine) (hw : VWF vs) :
     intro l hl
     obtain ⟨z, hz, rfl⟩ := List.mem_map.mp hl
     exact nl_not_mem_vline z (hw.names z hz).2)]
-  have := vmstatLoop_render vs hw none none (by simp) (by simp) (by simp)
+  have := vmstatLoop_render f vs hw none none (by simp) (by simp) (by simp)
   simpa using this
 
+
+theorem vmstatLoop_vmstat (vs : List VLine) (hw : VWF vs) :
+    vmstatLoop kernelCfg (linesOf (renderVmstat vs)) none none =
+      .ok (pairUp ((vmstatGet vs (K "pswpin")).map (· * 4096))
+                  ((vmstatGet vs (K "pswpout")).map (· * 4096))) :=
+  vmstatLoop_vmstatF 4096 vs hw
 
 end Psutil.C08
